@@ -96,6 +96,12 @@ def run(chk, replay=None):
         v = rng.randint(1, mx) if mx > 0 else 0
         return v
 
+    def optvalue(cls, name):
+        # an optional argument passed explicitly must reach the CDB also when it is 0
+        if name in ("alloclen", "alloc_len"):
+            return value(cls, name)        # allocation length 0 = no data phase: nothing to decode (not exercised here)
+        return 0 if rng.random() < 0.3 else value(cls, name)
+
     for method in sorted(METHODS):
         cls0, req, fmt0 = METHODS[method]
         variants = [(cls0, fmt0, None)] if cls0 != "#prin" else [(PRIN[k][0], PRIN[k][1], k) for k in PRIN]
@@ -118,7 +124,7 @@ def run(chk, replay=None):
                             continue
                         a[n] = sa if n == "service_action" else value(cls, n)
                     for n in sub:
-                        a[n] = value(cls, n)
+                        a[n] = optvalue(cls, n)
                     if phs[cls] in ("in_blocks", "out_data"):
                         a["tl"] = rng.randint(0, 3)
                     if phs[cls] == "readcd":
@@ -168,6 +174,15 @@ def run(chk, replay=None):
                     dev.opcodes = table
                     dev.calls = []
                     dev.fill = fill
+                    fail = ""
+                    if rng.random() < 0.12:
+                        # the device takes the command and then fails: the error is the caller's, once
+                        fail = rng.choice(["TypeError", "ValueError", "RuntimeError", "OSError", "KeyError"])
+
+                        def failing(cmd, fail=fail):
+                            raise {"TypeError": TypeError, "ValueError": ValueError, "RuntimeError": RuntimeError,
+                                   "OSError": OSError, "KeyError": KeyError}[fail]("device failure injected by the harness")
+                        dev.fill = failing
                     args = [a[n] if n != "data" else (None if a.get("ndob") else bytearray(data)) for n in req]
                     kwargs = {n: a[n] for n in sub}
                     if method in ("atapassthrough12", "atapassthrough16"):
@@ -179,7 +194,7 @@ def run(chk, replay=None):
                         exc = type(ex).__name__
                     n_exec = len(dev.calls)
                     c0 = dev.calls[0] if dev.calls else None
-                    calls.append({"method": method, "set": setname, "exc": exc, "execs": n_exec, "returned": cmd is not None,
+                    calls.append({"method": method, "set": setname, "exc": exc, "execs": n_exec, "returned": cmd is not None, "fail": fail,
                                   "same_bufs": bool(c0 and cmd is not None and c0["din_id"] == id(cmd.datain)
                                                     and c0["dout_id"] == id(cmd.dataout) and c0["cmd"] is cmd),
                                   "same_cdb": bool(c0 and cmd is not None and c0["cdb"] == bytes(cmd.cdb)),
